@@ -22,6 +22,39 @@ pub static MAXREQ: AtomicUsize = AtomicUsize::new(0);
 pub static CAP: AtomicUsize = AtomicUsize::new(usize::MAX);
 pub static REFUSED: AtomicUsize = AtomicUsize::new(0);
 
+extern "C" {
+    fn write(fd: i32, buf: *const u8, n: usize) -> isize;
+}
+/// Report a refused request on stderr without allocating (the process aborts right after).
+fn note_refused(size: usize) {
+    REFUSED.fetch_max(size, Ordering::Relaxed);
+    MAXREQ.fetch_max(size, Ordering::Relaxed);
+    let mut buf = [0u8; 48];
+    let pre = b"ASEVER-REFUSED ";
+    buf[..pre.len()].copy_from_slice(pre);
+    let mut digits = [0u8; 24];
+    let mut n = size;
+    let mut k = 0;
+    loop {
+        digits[k] = b'0' + (n % 10) as u8;
+        n /= 10;
+        k += 1;
+        if n == 0 {
+            break;
+        }
+    }
+    let mut pos = pre.len();
+    while k > 0 {
+        k -= 1;
+        buf[pos] = digits[k];
+        pos += 1;
+    }
+    buf[pos] = b'\n';
+    unsafe {
+        write(2, buf.as_ptr(), pos + 1);
+    }
+}
+
 fn note_alloc(size: usize) {
     let live = LIVE.fetch_add(size, Ordering::Relaxed) + size;
     PEAK.fetch_max(live, Ordering::Relaxed);
@@ -31,8 +64,7 @@ fn note_alloc(size: usize) {
 unsafe impl GlobalAlloc for Counting {
     unsafe fn alloc(&self, l: Layout) -> *mut u8 {
         if l.size() > CAP.load(Ordering::Relaxed) {
-            REFUSED.fetch_max(l.size(), Ordering::Relaxed);
-            MAXREQ.fetch_max(l.size(), Ordering::Relaxed);
+            note_refused(l.size());
             return std::ptr::null_mut();
         }
         let p = System.alloc(l);
@@ -43,8 +75,7 @@ unsafe impl GlobalAlloc for Counting {
     }
     unsafe fn alloc_zeroed(&self, l: Layout) -> *mut u8 {
         if l.size() > CAP.load(Ordering::Relaxed) {
-            REFUSED.fetch_max(l.size(), Ordering::Relaxed);
-            MAXREQ.fetch_max(l.size(), Ordering::Relaxed);
+            note_refused(l.size());
             return std::ptr::null_mut();
         }
         let p = System.alloc_zeroed(l);
@@ -59,8 +90,7 @@ unsafe impl GlobalAlloc for Counting {
     }
     unsafe fn realloc(&self, p: *mut u8, l: Layout, new: usize) -> *mut u8 {
         if new > CAP.load(Ordering::Relaxed) {
-            REFUSED.fetch_max(new, Ordering::Relaxed);
-            MAXREQ.fetch_max(new, Ordering::Relaxed);
+            note_refused(new);
             return std::ptr::null_mut();
         }
         let q = System.realloc(p, l, new);
@@ -132,6 +162,7 @@ fn main() {
             "fields" => drivers::fields_cmd(&rest),
             "gen" => gen::gen_cmd(&rest),
             "faults" => gen::faults_cmd(&rest),
+            "cuts" => drivers::cuts_cmd(&rest),
             "blend" => drivers::blend_cmd(&rest),
             "readers" => drivers::readers_cmd(&rest),
             "threads" => drivers::threads_cmd(&rest),
